@@ -238,6 +238,17 @@ func init() {
 				}
 				d, c1, c3 = rng.Int64N(1<<39), rng.Int64N(1<<39), rng.Int64N(1<<39)
 			}
+			if i%16 == 1 {
+				// delays of 2^62 ns and more (about 146 years): offset + delay and delay - offset still fit
+				// into int64 nanoseconds, twice the delay does not
+				d = (int64(1) << 62) + rng.Int64N((int64(1)<<62)-(int64(1)<<42))
+				if rng.IntN(4) == 0 {
+					d = (int64(1) << 62) - 2 + rng.Int64N(5)
+				}
+				room := math.MaxInt64 - (int64(1) << 41) - d
+				theta = rng.Int64N(2*min(room, int64(1)<<50)+1) - min(room, int64(1)<<50)
+				c1, c3 = rng.Int64N(1<<39), rng.Int64N(1<<39)
+			}
 			if rng.IntN(8) == 0 {
 				c1, c3 = 0, 0
 			}
